@@ -19,6 +19,7 @@ The only flavour algebra used is the rotation documented in doc/source/theory/Ma
 (g, q, H) -> (Sigma = q + H, g, T = q - nf H).
 """
 
+import functools
 import math
 
 import numpy as np
@@ -28,8 +29,9 @@ KINDS = ("us", "ps", "ut")
 
 
 # ------------------------------------------------------------------ eko entry points (the code under test)
+@functools.lru_cache(maxsize=4096)
 def gammas(kind, order, N, nf, mode=10101, fhmruvv=True):
-    """(gamma_singlet tower, gamma_ns tower) of the given kind."""
+    """(gamma_singlet tower, gamma_ns tower) of the given kind (memoised: treat the arrays as read-only)."""
     if kind == "us":
         import ekore.anomalous_dimensions.unpolarized.space_like as ad
 
@@ -43,8 +45,10 @@ def gammas(kind, order, N, nf, mode=10101, fhmruvv=True):
     return ad.gamma_singlet(order, N, nf), ad.gamma_ns(order, mode, N, nf)
 
 
+@functools.lru_cache(maxsize=4096)
 def omes(kind, mo, N, nf, L, is_msbar=False):
-    """(A_singlet tower in basis (g,q,H), A_non_singlet tower in basis (q,H)); mo = matching order."""
+    """(A_singlet tower in basis (g,q,H), A_non_singlet tower in basis (q,H)); mo = matching order
+    (memoised: treat the arrays as read-only)."""
     if kind == "us":
         import ekore.operator_matrix_elements.unpolarized.space_like as om
 
@@ -211,8 +215,8 @@ def seam(kind, n, nf, k, lam, N, direction="forward", scheme="POLE", method="ite
     R = rot(nf)
     ns = {}
     if fwd:
-        Elo = ks.dispatcher(order, meth, gS, a1, a0, nf, 10, 10)
-        Ehi = ks.dispatcher(order, meth, gSp, a2, a1p, nf + 1, 10, 10)
+        Elo = ks.dispatcher(order, meth, gS, a1, a0, nf, 10, (10, 0))
+        Ehi = ks.dispatcher(order, meth, gSp, a2, a1p, nf + 1, 10, (10, 0))
         Ens = kns.dispatcher(order, meth, gNp, a2, a1p, nf + 1)
         B = embed_low(Elo)
         B[2, 2] = 1.0
@@ -227,9 +231,9 @@ def seam(kind, n, nf, k, lam, N, direction="forward", scheme="POLE", method="ite
                 order, meth, gl, a1, a0, nf
             )
     else:
-        Ehi = ks.dispatcher(order, meth, gSp, a1p, a2, nf + 1, 10, 10)
+        Ehi = ks.dispatcher(order, meth, gSp, a1p, a2, nf + 1, 10, (10, 0))
         Ens = kns.dispatcher(order, meth, gNp, a1p, a2, nf + 1)
-        Elo = ks.dispatcher(order, meth, gS, a0, a1, nf, 10, 10)
+        Elo = ks.dispatcher(order, meth, gS, a0, a1, nf, 10, (10, 0))
         U = np.zeros((3, 3), complex)
         U[:2, :2] = Ehi
         U[2, 2] = Ens
